@@ -471,3 +471,36 @@ bool z_uncompress(const Bytes &in, Bytes &out)
 	out.resize(n);
 	return true;
 }
+
+// ------------------------------------------------------------------ re-serialise (what a re-encoding relay does)
+static void put_labels(Bytes &b, const DnsName &n) { for (auto &l : n.labels) { b.push_back((uint8_t)l.size()); b.insert(b.end(), l.begin(), l.end()); } b.push_back(0); }
+Bytes dns_rebuild(const DnsMsg &m)
+{
+	Bytes b;
+	put16(b, m.id);
+	b.push_back((m.qr ? 0x80 : 0) | ((m.opcode & 15) << 3) | (m.aa ? 4 : 0) | (m.tc ? 2 : 0) | (m.rd ? 1 : 0));
+	b.push_back((m.ra ? 0x80 : 0) | ((m.z & 7) << 4) | (m.rcode & 15));
+	put16(b, (uint16_t)m.qd.size()); put16(b, (uint16_t)m.an.size()); put16(b, (uint16_t)m.ns.size()); put16(b, (uint16_t)m.ar.size());
+	// names are compressed against the question name only when identical (the common resolver behaviour)
+	size_t qoff = 12;
+	for (auto &q : m.qd) { put_labels(b, q.name); put16(b, q.type); put16(b, q.klass); }
+	auto put_owner = [&](const DnsName &n) {
+		if (!m.qd.empty() && n.labels == m.qd[0].name.labels && !n.labels.empty()) { b.push_back(0xc0 | (qoff >> 8)); b.push_back(qoff & 0xff); }
+		else put_labels(b, n);
+	};
+	auto put_rr = [&](const DnsRR &r) {
+		put_owner(r.name); put16(b, r.type); put16(b, r.klass); put32(b, r.ttl);
+		Bytes rd;
+		switch (r.type) {
+		case QT_CNAME: case QT_NS: put_labels(rd, r.rname); break;
+		case QT_MX: put16(rd, r.pref); put_labels(rd, r.rname); break;
+		case QT_SRV: put16(rd, r.pref); put16(rd, r.weight); put16(rd, r.port); put_labels(rd, r.rname); break;
+		default: rd = r.rdata;
+		}
+		put16(b, (uint16_t)rd.size()); b.insert(b.end(), rd.begin(), rd.end());
+	};
+	for (auto &r : m.an) put_rr(r);
+	for (auto &r : m.ns) put_rr(r);
+	for (auto &r : m.ar) put_rr(r);
+	return b;
+}
